@@ -11,6 +11,7 @@ package checks
 
 import (
 	"bufio"
+	"context"
 	"crypto/tls"
 	"crypto/x509"
 	"fmt"
@@ -18,10 +19,13 @@ import (
 	"net"
 	"net/http"
 	"net/url"
+	"os"
+	"os/exec"
 	"strings"
 	"sync/atomic"
 
 	"github.com/magisterquis/curlrevshell/verifx/ev"
+	"github.com/magisterquis/curlrevshell/verifx/hworld"
 )
 
 // c13Tunnel is a minimal CONNECT proxy.
@@ -140,4 +144,69 @@ type c13CountingRT struct{ inner http.RoundTripper }
 
 func (c c13CountingRT) RoundTrip(req *http.Request) (*http.Response, error) {
 	return c.inner.RoundTrip(req)
+}
+
+// c13Program: the simpleshell program itself (flag, environment variable):
+// what is given on the command line is what counts, and a malformed
+// fingerprint there is refused outright, whatever the environment holds.
+func c13Program(r *ev.Result, w *c13World, id func() string) {
+	bin := binPath("simpleshell")
+	if _, err := os.Stat(bin); nil != err {
+		r.Set("simpleshell_program", "not run: "+err.Error())
+		return
+	}
+	type run struct {
+		flagFP, envFP string
+		server        string
+		want          string /* ok | refused */
+	}
+	pa, pb := w.pins["pinA"], w.pins["pinB"]
+	n := 0
+	for _, c := range []run{
+		{flagFP: pb, envFP: pa, server: "A", want: "refused"},
+		{flagFP: "!!!not base64!!!", envFP: pa, server: "A", want: "refused"},
+		{flagFP: w.pins["31-bytes"], envFP: pa, server: "A", want: "refused"},
+		{flagFP: "sha256//", envFP: pa, server: "A", want: "refused"},
+		{flagFP: pa, envFP: pb, server: "B", want: "refused"},
+	} {
+		i := id()
+		args := []string{"-c2", "https://" + w.servers[c.server].addr + "/io"}
+		if "" != c.flagFP {
+			args = append(args, "-fingerprint", c.flagFP)
+		}
+		args = append(args, "/bin/sh", "-c", "printf shell-output-of-"+i)
+		before := w.servers[c.server].total()
+		ctx, cancel := context.WithTimeout(context.Background(), hworld.Watchdog)
+		cmd := exec.CommandContext(ctx, bin, args...)
+		cmd.Env = append(os.Environ(), "SIMPLESHELL_FP="+c.envFP, "SIMPLESHELL_C2=", "SIMPLESHELL_ARGS=")
+		out, _ := cmd.CombinedOutput()
+		cancel()
+		hits := w.servers[c.server].total() - before
+		n++
+		what := ""
+		switch {
+		case "ok" == c.want && 1 != hits:
+			what = fmt.Sprintf("the server with the pinned key was reached %d times; output %q", hits, trunc80(string(out)))
+		case "refused" == c.want && 0 != hits:
+			what = fmt.Sprintf("the request was sent (%d) although the fingerprint given on the command line does not admit that server; output %q", hits, trunc80(string(out)))
+		}
+		if "" != what {
+			r.Violate(ev.Violation{Signature: "program/" + c.want + "-expected", Kind: "c13", Replay: map[string]any{"flag": c.flagFP, "env": c.envFP, "server": c.server},
+				What: fmt.Sprintf("simpleshell -fingerprint %q with SIMPLESHELL_FP=%q against server %s: %s", c.flagFP, c.envFP, c.server, what)})
+		}
+	}
+	r.Evaluations += n
+	r.Traces += n
+	r.Set("simpleshell_program_runs", n)
+}
+
+// total is the number of requests the server has handled so far.
+func (s *c13Server) total() int {
+	s.mu.Lock()
+	defer s.mu.Unlock()
+	n := 0
+	for _, h := range s.hits {
+		n += h
+	}
+	return n
 }
